@@ -34,3 +34,5 @@ Lemma hybrid : hybrid_ok = true.
 Proof. vm_cast_no_check (eq_refl true). Qed.
 Lemma whfast_recalc : whfast_recalc_ok = true.
 Proof. vm_cast_no_check (eq_refl true). Qed.
+Lemma saba_recalc : saba_recalc_ok = true.
+Proof. vm_cast_no_check (eq_refl true). Qed.
